@@ -194,3 +194,27 @@ Definition e_c15_is_auto (v : val) : val :=
 (* () -> [by_chrom default; skip_low default] of center_all (regenerated from the signature) *)
 Definition e_c15_defaults (_ : val) : val :=
   VL [VB Gen.CenterDefaults.center_by_chrom_default; VB Gen.CenterDefaults.center_skip_low_default].
+
+(* commands.do_sex on several tables: [hap; build; gstat table; [[name; bins]]] ->
+   [column names; [[name; sex; None ("NA") | [X ratio; Y ratio | None (nan); "+" on X; "+" on Y]]]] *)
+Definition e_c15_do_sex_table (v : val) : val :=
+  match v with
+  | VL [hp; bd; gs; ins] =>
+      match getB hp, getBuild bd, getGstat gs, getList (getPair getS getBins) ins with
+      | Some hap, Some (Some build), Some g, Some inputs =>
+          VL [VL (map VS do_sex_header);
+              VL (map (fun row : string * (string * option (Q * option Q)) =>
+                         let '(name, (label, ratios)) := row in
+                         VL [VS name; VS label;
+                             match ratios with
+                             | None => VNone
+                             | Some (x, y) =>
+                                 VL [vQ x; vOptQ y; VB (strsign_plus x);
+                                     VB (match y with Some yv => strsign_plus yv | None => false end)]
+                             end])
+                      (do_sex_table (gstat_of g) hap build inputs))]
+      | Some _, Some None, Some _, Some _ => VErr "Assertion"
+      | _, _, _, _ => bad_input
+      end
+  | _ => bad_input
+  end.
